@@ -158,11 +158,11 @@ func ruleMPTReader(c *Ctx) {
 func ruleRCWriters(c *Ctx) {
 	ruleRefCountResult(c)
 	allowed := map[string]string{
-		"pkg/core/mpt.(*Trie).Flush":                "non-RC mode: stores flushed node bytes",
-		"pkg/core/mpt.(*Trie).updateRefCount":        "folds the per-block delta into the stored count",
+		"pkg/core/mpt.(*Trie).Flush":                  "non-RC mode: stores flushed node bytes",
+		"pkg/core/mpt.(*Trie).updateRefCount":         "folds the per-block delta into the stored count",
 		"pkg/core/mpt.(*Billet).incrementRefAndStore": "state sync restore: count +1 per restored occurrence",
-		"pkg/core/mpt.(*Billet).RestoreHashNode":     "temporary contract storage item of a restored leaf (not a DataMPT record)",
-		"pkg/core/mpt.VerifyProof":                   "scratch store created inside the function",
+		"pkg/core/mpt.(*Billet).RestoreHashNode":      "temporary contract storage item of a restored leaf (not a DataMPT record)",
+		"pkg/core/mpt.VerifyProof":                    "scratch store created inside the function",
 	}
 	g := c.P.MRG()
 	mut := c.P.storeMutators()
@@ -580,6 +580,7 @@ func (oc *ownedClient) Node(f *FuncCFG, b *cfgBlock, idx int, n ast.Node, st *FS
 		}
 	}
 }
+
 // Edge: a failed read yields no stored value.
 func (oc *ownedClient) Edge(f *FuncCFG, b *cfgBlock, cond ast.Expr, value bool, st *FState) bool {
 	facts := map[types.Object]bool{}
@@ -598,7 +599,7 @@ func (oc *ownedClient) Edge(f *FuncCFG, b *cfgBlock, cond ast.Expr, value bool, 
 	}
 	return true
 }
-func (oc *ownedClient) Deferred(f *FuncCFG, op string, st *FState)                      {}
+func (oc *ownedClient) Deferred(f *FuncCFG, op string, st *FState)                  {}
 func (oc *ownedClient) Exit(f *FuncCFG, b *cfgBlock, r *ast.ReturnStmt, st *FState) {}
 
 func ruleStoreValueImmutable(c *Ctx) {
